@@ -1075,4 +1075,108 @@ theorem lenOkL_of_needL (cs : List Node) (h : Node.needL cs < 65536) : Node.lenO
     exact ⟨lenOk_of_need n (by omega), lenOkL_of_needL r (by omega)⟩
 end
 
+
+/-! ## errors; exactness of the buffer requirement -/
+theorem stepLow_errors (w : W) (l : Low) (e : Err) (hw : Inv w) (hl : l ≠ .panic) (h : w.stepLow l = .error e) :
+    e = .bufferTooSmall ∨ e = .invalid := by
+  cases l with
+  | tlv t c => simp only [W.stepLow, W.tlvL] at h; split at h <;> simp at h; exact Or.inl h.symm
+  | raw d => simp only [W.stepLow, W.rawL] at h; split at h <;> simp at h; exact Or.inl h.symm
+  | start t =>
+    simp only [W.stepLow, W.startL] at h
+    have : w.cur < w.depth.length := by rw [hw.dlen]; exact hw.cur
+    simp only [this, if_true] at h
+    repeat' split at h
+    all_goals simp at h
+    all_goals exact Or.inl h.symm
+  | stop =>
+    simp only [W.stepLow, W.stopL] at h
+    repeat' split at h
+    all_goals simp at h
+    · exact Or.inr h.symm
+    · exact Or.inl h.symm
+  | panic => exact absurd rfl hl
+
+/-- the only errors of the writer are `BufferTooSmall` (no room, length ≥ 65536, depth limit) and `Invalid`
+(an end without a start) -/
+theorem Inv.run_errors {w : W} (h : Inv w) (ops : List Op) (ha : ∀ op ∈ ops, op.argsOk) (e : Err)
+    (he : w.run ops = .error e) : e = .bufferTooSmall ∨ e = .invalid := by
+  induction ops generalizing w with
+  | nil => simp [W.run, pure, Except.pure] at he
+  | cons op r ih =>
+    simp only [W.run, h.step_eq op, bind, Except.bind] at he
+    cases hs : w.stepLow op.low with
+    | error e' =>
+      rw [hs] at he; simp only [Except.error.injEq] at he; subst he
+      exact stepLow_errors w op.low e' h (low_ne_panic op (ha op (by simp))) hs
+    | ok w1 =>
+      rw [hs] at he
+      exact ih (h.stepLow _ hs) (fun o ho => ha o (by simp [ho])) he
+
+theorem runLow_append_error (w : W) (a b : List Low) (e : Err) (h : w.runLow a = .error e) :
+    w.runLow (a ++ b) = .error e := by
+  rw [runLow_append, h]; rfl
+
+theorem runLow_append_ok (w w1 : W) (a b : List Low) (h : w.runLow a = .ok w1) :
+    w.runLow (a ++ b) = w1.runLow b := by
+  rw [runLow_append, h]; rfl
+
+mutual
+/-- `need` is exact: with less room the writer answers `BufferTooSmall` -/
+theorem runNode_noSpace (n : Node) (w : W) (hd : w.depth.length = MAX_DEPTH) (hh : w.cur + n.height < MAX_DEPTH)
+    (_ho : w.offset ≤ w.buf.length) (hl : n.lenOk) (hfit : w.buf.length < w.offset + n.need) :
+    w.runLow n.lows = .error .bufferTooSmall := by
+  match n, hh, hl, hfit with
+  | .prim t c, hh, hl, hfit =>
+    simp only [Node.need, enc_prim_length] at hfit
+    have : ¬ (c.length < 65536 ∧ w.offset + (1 + (lenBytes c.length).length + c.length) ≤ w.buf.length) := by omega
+    simp [Node.lows, W.runLow, W.stepLow, W.tlvL, bind, Except.bind, this]
+  | .raw b, hh, hl, hfit =>
+    simp only [Node.need] at hfit
+    have : ¬ (w.offset + b.length ≤ w.buf.length) := by omega
+    simp [Node.lows, W.runLow, W.stepLow, W.rawL, bind, Except.bind, this]
+  | .cons t cs, hh, hl, hfit =>
+    simp only [Node.need, reserve_eq] at hfit
+    simp only [Node.height] at hh
+    obtain ⟨hl1, hl2⟩ := hl
+    by_cases hoff : w.offset + 4 ≤ w.buf.length
+    · have hcur : w.cur < w.depth.length := by omega
+      have hstart : w.stepLow (.start t) = .ok
+          { buf := w.buf.set w.offset t, offset := w.offset + 4, depth := w.depth.set w.cur (w.offset + 4), cur := w.cur + 1 } := by
+        simp [W.stepLow, W.startL, hoff, hcur]; omega
+      have := runNodes_noSpace cs
+        { buf := w.buf.set w.offset t, offset := w.offset + 4, depth := w.depth.set w.cur (w.offset + 4), cur := w.cur + 1 }
+        (by simp [hd]) (by simp only []; omega) (by simp; omega) hl2 (by simp; omega)
+      simp only [Node.lows, W.runLow, hstart, bind, Except.bind]
+      exact runLow_append_error _ _ _ _ this
+    · simp [Node.lows, W.runLow, W.stepLow, W.startL, hoff, bind, Except.bind]
+theorem runNodes_noSpace (cs : List Node) (w : W) (hd : w.depth.length = MAX_DEPTH)
+    (hh : w.cur + Node.heightL cs < MAX_DEPTH) (ho : w.offset ≤ w.buf.length) (hl : Node.lenOkL cs)
+    (hfit : w.buf.length < w.offset + Node.needL cs) :
+    w.runLow (Node.lowsL cs) = .error .bufferTooSmall := by
+  match cs, hh, hl, hfit with
+  | [], _, _, hfit => simp only [Node.needL] at hfit; omega
+  | n :: r, hh, hl, hfit =>
+    simp only [Node.heightL] at hh
+    simp only [Node.needL] at hfit
+    obtain ⟨hl1, hl2⟩ := hl
+    by_cases hn : w.buf.length < w.offset + n.need
+    · simp only [Node.lowsL]
+      exact runLow_append_error _ _ _ _ (runNode_noSpace n w hd (by omega) ho hl1 hn)
+    · obtain ⟨w1, hr1, hp1⟩ := runNode n w hd (by omega) hl1 (by omega)
+      simp only [Node.lowsL]
+      rw [runLow_append_ok _ _ _ _ hr1]
+      have := need_ge n
+      exact runNodes_noSpace r w1 (by rw [hp1.dlen, hd]) (by rw [hp1.cur]; omega) (by rw [hp1.off, hp1.len]; omega) hl2
+        (by rw [hp1.off, hp1.len]; omega)
+end
+
+/-- the buffer requirement of `run_balanced` is exact -/
+theorem run_balanced_noSpace (buf : List Nat) (ops : List Op) (ns : List Node) (hb : forest ops = some ns)
+    (hh : Node.heightL ns < MAX_DEPTH) (hl : Node.lenOkL ns) (hfit : buf.length < Node.needL ns) :
+    (W.new buf).run ops = .error .bufferTooSmall := by
+  rw [(Inv.new buf).run_eq, forest_lows ops ns hb]
+  exact runNodes_noSpace ns (W.new buf) (by simp [W.new]) (by simpa [W.new] using hh) (by simp [W.new]) hl
+    (by simpa [W.new] using hfit)
+
 end Codec.Der
